@@ -529,6 +529,16 @@ func runC09(c *fw.Case) {
 		c.Count("root_build_failed", 1)
 		return
 	}
+	if rng.Intn(8) == 0 {
+		meta := model.MetaOf(root.Shadow)
+		if up, op := model.UpperCaseEnum(rng, root.QF, root.Shadow, meta); op != "" {
+			if sh2, e := model.ObserveGuard(up); e == nil {
+				meta.Apply(sh2)
+				root = &model.Root{Shadow: sh2, QF: up, Path: root.Path, Ops: append(root.Ops, op), Shape: root.Shape}
+				c.Count("frames_with_uppercased_enum", 1)
+			}
+		}
+	}
 	sh := root.Shadow
 	c.Count("shape:"+root.Shape, 1)
 	var notes []string
